@@ -108,6 +108,10 @@ func (r *validationResponseHandler) HandleValidationResponse(
 			SetAgeHeader(ctx.Stored.Data, r.clock, ctx.Freshness.Age)
 			CacheStatusStale.ApplyTo(ctx.Stored.Data.Header)
 			r.l.LogCacheStaleIfError(req, ctx.URLKey, ctx.ToMisc(storedCC))
+			if resp != nil && resp.Body != nil {
+				// The failed reply is dropped: release it and its connection.
+				_ = resp.Body.Close()
+			}
 			return ctx.Stored.Data, nil
 		}
 	}
